@@ -16,7 +16,7 @@ import (
 func init() { Registry["C11"] = checkC11 }
 
 func checkC11(c *core.Ctx, l *core.Ledger) {
-	l.Explanation = "Static clauses of C11: (WALK-COMPLETE) for every concrete ast.Node type, visitChildren calls v.visit exactly once for every field (or, inside a loop over it, every element of a slice field) whose static type implements Node, passing the stack it received, and visits nothing else; visitor.visit returns on nil, asks the user's visitor with the stack of ancestors, then pushes the node before descending — together: every node reachable through Node-typed fields is visited exactly once with its true parent on top of the stack; (XOR) internal.Parse returns a program only under e==0 && !parseFailed and otherwise the zero result with lex.errors; parseFailed is set only by AppendError, which appends in the same straight-line block; the generated yyParse reaches `return 1` only after yylex.Error was called (abstract interpretation of the error-recovery flag over the generated parser's CFG); newParseError is nil iff the list is empty — hence never both, never neither; (POS-PAIR) every ast literal built by a grammar action takes Line and Column from the same position marker and every pos() accessor returns its own Line/Column; (POS-KEY) positions recorded in the side table must be keyed by nodes with identity (pointers or position-carrying values) — value-typed constants are not, which is recorded as a known finding. (POS-MARKER) for every use of a position or docstring marker in a grammar action, the goyacc tables in y.go are explored abstractly — reachable (state, lookahead-present) configurations of the LALR automaton on error-free input, reductions resolved through the reverse transition graph — to decide whether the marker's empty production is reduced after the next token was read (lexer.Pos() then describes the next token) or by default without lookahead (it describes the last shifted token); a marker followed by further symbols must describe the next token, a marker ending its production the token it follows. (LEX-NUM) every strconv.ParseInt in the scanner uses base 10, or 16 under the test for the 0x prefix, with 64 bits, and ParseFloat 64 bits. (ACTION-USES) for every production of the grammar (thrift.y) the action refers to every right-hand-side symbol that carries a semantic value, and the corresponding case of the generated parser mentions the same yyDollar[k] — no parsed component (an annotation list, a default value) is dropped from the tree. NOT decided: that the ragel scanner is total and tokenises faithfully, newline bookkeeping inside lex.go, docstring attachment, unquoting, literal values."
+	l.Explanation = "Static clauses of C11: (WALK-COMPLETE) for every concrete ast.Node type, visitChildren calls v.visit exactly once for every field (or, inside a loop over it, every element of a slice field) whose static type implements Node, passing the stack it received, and visits nothing else; visitor.visit returns on nil, asks the user's visitor with the stack of ancestors, then pushes the node before descending — together: every node reachable through Node-typed fields is visited exactly once with its true parent on top of the stack; (XOR) internal.Parse returns a program only under e==0 && !parseFailed and otherwise the zero result with lex.errors; parseFailed is set only by AppendError, which appends in the same straight-line block; the generated yyParse reaches `return 1` only after yylex.Error was called (abstract interpretation of the error-recovery flag over the generated parser's CFG); newParseError is nil iff the list is empty — hence never both, never neither; (POS-PAIR) every ast literal built by a grammar action takes Line and Column from the same position marker and every pos() accessor returns its own Line/Column; (POS-KEY) positions recorded in the side table must be keyed by nodes with identity (pointers or position-carrying values) — value-typed constants are not, which is recorded as a known finding. (POS-MARKER) for every use of a position or docstring marker in a grammar action, the goyacc tables in y.go are explored abstractly — reachable (state, lookahead-present) configurations of the LALR automaton on error-free input, reductions resolved through the reverse transition graph — to decide whether the marker's empty production is reduced after the next token was read (lexer.Pos() then describes the next token) or by default without lookahead (it describes the last shifted token); a marker followed by further symbols must describe the next token, a marker ending its production the token it follows. (LEX-NUM) every strconv.ParseInt in the scanner uses base 10, or 16 under the test for the 0x prefix, with 64 bits, and ParseFloat 64 bits. (ACTION-USES) for every production of the grammar (thrift.y) the action refers to every right-hand-side symbol that carries a semantic value, and the corresponding case of the generated parser mentions the same yyDollar[k] — no parsed component (an annotation list, a default value) is dropped from the tree. (BYTE-SAFE) the hand-written code of idl/internal treats literal text bytewise (no rune-level mapping, []rune conversion or range over a string), so \\xNN escapes survive. NOT decided: that the ragel scanner is total and tokenises faithfully, newline bookkeeping inside lex.go, docstring attachment, unquoting, literal values."
 	l.RuleText = "one obligation per node type / parse exit / literal / marker"
 	l.Assumptions = []string{"goyacc's driver code is as generated (its CFG is analysed, its tables are read from y.go)", "the ragel scanner sets ts to the start of the token it returns"}
 
@@ -27,6 +27,7 @@ func checkC11(c *core.Ctx, l *core.Ledger) {
 	checkPosMarkers(c, l)
 	checkLexNumbers(c, l)
 	checkActionUsesAll(c, l)
+	checkByteTransparent(c, l, "BYTE-SAFE")
 }
 
 // ---- WALK-COMPLETE -------------------------------------------------------------
